@@ -32,6 +32,7 @@ struct Args {
     root: PathBuf,
     no_evidence: bool,
     part: Option<String>,
+    long_call_probe: bool,
     dump_seeds: Option<(PathBuf, usize)>,
     fuzz_executed: Option<u64>,
 }
@@ -49,6 +50,7 @@ fn parse_args() -> Result<Args, String> {
         root: PathBuf::from("/verif"),
         no_evidence: false,
         part: None,
+        long_call_probe: false,
         dump_seeds: None,
         fuzz_executed: None,
     };
@@ -64,6 +66,7 @@ fn parse_args() -> Result<Args, String> {
             "--extra-corpus" => a.extra.push(PathBuf::from(it.next().ok_or("--extra-corpus needs a dir")?)),
             "--root" => a.root = PathBuf::from(it.next().ok_or("--root needs a dir")?),
             "--no-evidence" => a.no_evidence = true,
+            "--long-call-probe" => a.long_call_probe = true,
             "--part" => a.part = Some(it.next().ok_or("--part needs a value")?),
             "--dump-seeds" => {
                 let d = PathBuf::from(it.next().ok_or("--dump-seeds needs a dir")?);
@@ -401,6 +404,73 @@ fn write_replay(root: &Path, id: &str, seed: u64, f: &Failure) -> PathBuf {
     path
 }
 
+/// Runs the long-call cases of one property on a thread with a 1 MiB stack and exits:
+/// 0 = all equal to the model, 1 = VIOLATION printed (mismatch or panic in the code under test),
+/// 2 = harness problem. A stack overflow or abort kills the process; the driver script turns
+/// that into the violation.
+fn long_call_probe(ctx: Ctx, id: &'static str, args: &Args) -> ! {
+    let thorough = args.tier == "thorough";
+    let seed = args.seed;
+    let scale = args.scale_pct as usize;
+    let t0 = Instant::now();
+    let h = std::thread::Builder::new()
+        .name("long-call".into())
+        .stack_size(1 << 20)
+        .spawn(move || {
+            let r = std::panic::catch_unwind(std::panic::AssertUnwindSafe(|| vp_core::longcall::run(&ctx, id, seed, thorough, scale)));
+            match r {
+                Ok(r) => r.map_err(|v| (v.sig, v.msg)),
+                Err(_) => match vp_core::engine::take_foreign_panic() {
+                    Some(text) => Err((format!("{id}/long-call-panic"), format!("code under test panicked: {text}"))),
+                    None => Err(("harness".into(), "panic inside the harness".into())),
+                },
+            }
+        })
+        .expect("spawn");
+    let res = match h.join() {
+        Ok(r) => r,
+        Err(_) => Err(("harness".into(), "probe thread died".into())),
+    };
+    let wall = t0.elapsed().as_secs_f64();
+    match res {
+        Ok(st) => {
+            let ev = json!({
+                "coverage": {
+                    "evaluations": st.cases,
+                    "distinct_nontrivial": st.cases,
+                    "excluded_known": 0,
+                    "classes": { "long-single-call": st.cases },
+                    "engines": { "long-call probe (own process, 1 MiB stack, reference-model oracle)": st.cases },
+                    "samples": st.samples,
+                    "long_call_bytes": st.bytes,
+                },
+                "wall_s": wall,
+                "violations": 0,
+            });
+            if !args.no_evidence {
+                let _ = std::fs::create_dir_all(args.root.join("evidence"));
+                let _ = std::fs::write(args.root.join("evidence").join(format!("{id}.longcall{}.part.json", if cfg!(debug_assertions) && scale < 100 { "dev" } else { "" })), serde_json::to_string_pretty(&ev).unwrap());
+            }
+            println!("{id} long-call probe: {} single calls, {} bytes, all equal to the model, wall={wall:.1}s", st.cases, st.bytes);
+            std::process::exit(0);
+        }
+        Err((sig, msg)) if sig == "harness" => {
+            eprintln!("vp-run: long-call probe: {msg}");
+            std::process::exit(2);
+        }
+        Err((sig, msg)) => {
+            let dir = args.root.join("replays");
+            let _ = std::fs::create_dir_all(&dir);
+            let path = dir.join(format!("{id}-long-call.json"));
+            let j = json!({ "property": id, "probe": "long-call", "seed": seed, "tier": args.tier, "sig": sig, "message": msg });
+            let _ = std::fs::write(&path, serde_json::to_string_pretty(&j).unwrap());
+            println!("{id}: {sig}: {msg}");
+            println!("VIOLATION property={id} replay={}", path.display());
+            std::process::exit(1);
+        }
+    }
+}
+
 fn main() {
     let args = match parse_args() {
         Ok(a) => a,
@@ -423,6 +493,11 @@ fn main() {
     if let Err(e) = vp_core::selfcheck::run(&ctx, &args.id) {
         eprintln!("vp-run: harness self-check failed: {e}");
         std::process::exit(2);
+    }
+
+    // --- long single calls: a process of its own (see core/src/longcall.rs) ----------------------
+    if args.long_call_probe {
+        long_call_probe(ctx, p.id, &args);
     }
 
     // --- known findings: deterministic probes ------------------------------------------------
